@@ -568,14 +568,12 @@ impl<W: Write> RdbWriter<W> {
                 self.write_byte(RdbOpcode::ZSet as u8)?;
                 self.write_string(key)?;
                 
-                // Get all items and write them
-                let len = skiplist.len();
-                self.write_length(len)?;
-                
-                // Note: This is a suboptimal approach since we need to materialize
-                // all members in memory. A better approach would be to have a streaming
-                // iterator in the SkipList implementation.
-                let items = skiplist.range_by_rank(0, len - 1).items;
+                // The sorted set is shared with the command thread (Arc): take the items once,
+                // under the skip list's own lock, and write THEIR count - a length read
+                // separately can disagree with the items when a ZADD/ZREM runs in between,
+                // and the file then no longer parses (also: no `len - 1` on an empty set)
+                let items = skiplist.range_by_rank(0, usize::MAX).items;
+                self.write_length(items.len())?;
                 
                 for (member, score) in items {
                     self.write_string(&member)?;
